@@ -294,6 +294,9 @@ class Scenario(object):
         h.on["starting"] = [lambda: self.maybe_raise("starting")]
         h.on["shutdown"] = [lambda: self.maybe_raise("shutdown")]
         self.kick = []               # client objects the handler will disconnect from inside update()
+        self.kick_in_disconnect = [] # client objects the handler will disconnect from inside the NEXT disconnect event
+        self.shutdown_in_update = False
+        self.handler_shutdown_done = False
         self.violations = []
         w.start()
 
@@ -335,6 +338,11 @@ class Scenario(object):
 
     def on_disconnect(self, client):
         self.connected.pop(id(client), None)
+        for cl in self.kick_in_disconnect:
+            if cl is not client:
+                cl.disconnect()      # the application closes further clients from inside a disconnect event
+                self.c.inc("server_disconnect_in_disconnect")
+        self.kick_in_disconnect = []
         self.maybe_raise("disconnect")
 
     def on_message(self, client, seqnum, msg):
@@ -350,6 +358,11 @@ class Scenario(object):
             cl.disconnect()
             self.c.inc("server_disconnect_in_update")
         self.kick = []
+        if self.shutdown_in_update:
+            self.shutdown_in_update = False
+            self.handler_shutdown_done = True
+            self.c.inc("shutdown_called_from_handler")
+            self.w.ctxt.shutdown()   # the application stops the server from inside a handler event
         self.maybe_raise("update")
 
     # ---- the run
@@ -368,6 +381,8 @@ class Scenario(object):
         recent = []
         w.wire_hooks.append(lambda direction, addr, d, client, n: recent.append((direction, addr, d)) if direction == "c2s" else None)
         next_sender = [1]
+        rogues = []
+        ra_in_temp = lambda a: a in w.ctxt.temp_connections
 
         def new_client(addr):
             c = L.ClientEnd(w, addr, next_sender[0] % 250 + 1, pinned=r.random() < 0.8)
@@ -423,6 +438,18 @@ class Scenario(object):
                 self.c.inc("act_go_silent")
             elif x < 0.57 and w.ctxt.connections:
                 self.kick.append(r.choice(list(w.ctxt.connections.values())))
+            elif x < 0.585 and len(rogues) < 6:
+                # a rogue peer: the hello exchange gives it a session key, its challenge response never arrives
+                ra = ("10.3.9.%d" % (len(rogues) + 2), 31000 + len(rogues))
+                rc = L.ClientEnd(w, ra, 251, pinned=True)
+                rc.sender_id = 251
+                sender_of.setdefault(251, set()).add(ra)
+                w.clients.append(rc)
+                w.clients_by_addr[ra] = rc
+                w.net.filters.append(lambda direction, a, d, info, ra=ra: "drop" if (direction == "c2s" and a == ra and len(d) >= 20 and d[12] == 3) else None)
+                rc.connect()
+                rogues.append([rc, t, 0])
+                self.c.inc("act_rogue_peer")
             elif x < 0.65 and recent:
                 # duplicated / stale / garbage datagrams in between
                 direction, addr, d = r.choice(recent[-300:])
@@ -441,6 +468,19 @@ class Scenario(object):
                 else:
                     w.net.inject("c2s", addr, A.forge_crc("c2s", r.randint(0, 7), r.randint(1, 65535), 1, 0, [(1, 6, b"x" * 12)], int(w.clock.now)), "forged")
                 self.c.inc("act_hostile_datagram")
+            # rogue peers seal whatever they like under the key they hold - without ever having answered the challenge
+            for rg in rogues:
+                rc, t0, n_sent = rg
+                key_ = rc.udp.conn.session_key_bytes if rc.udp.conn is not None else None
+                if key_ and t >= t0 + 4 and n_sent < 6 and ra_in_temp(rc.addr):
+                    rc.active = False
+                    k = n_sent
+                    pl = L.make_payload(251, 1000 * len(rogues) + k, 30)
+                    ptype, msgs = [(3, [(10 + 2 * k, 6, pl), (11 + 2 * k, 5, b"")]), (6, [(10 + 2 * k, 6, pl)]), (3, [(10 + 2 * k, 6, pl)]),
+                                   (3, [(10 + 2 * k, 5, b""), (11 + 2 * k, 6, pl)])][k % 4]
+                    w.net.inject("c2s", rc.addr, A.seal(key_, "c2s", ptype, 3 + k, 1, 0, msgs, int(w.clock.now), count=len(msgs)), "forged:rogue-keyed-peer")
+                    rg[2] += 1
+                    self.c.inc("rogue_sealed_datagrams")
             # junk keeps arriving from the addresses of silent clients: garbage, stale copies of their own datagrams, forged
             for addr, own in junk_for:
                 if r.random() < 0.6:
@@ -465,6 +505,20 @@ class Scenario(object):
         self.t_shutdown = w.clock.now
         still = dict(self.connected)
         self.c.inc("connected_at_shutdown", len(still))
+        # --- rogue peers that hold a session key (hello exchange done) but never sent a valid challenge: whatever they
+        #     seal under that key, the handler must not hear of them
+        # --- the last tick: the application closes clients from inside update() and from inside the disconnect event that
+        #     follows (clients the sweep has already passed), and the server is shut down in that same tick - by the owner
+        #     (stop) or by the handler itself
+        conns = list(w.ctxt.connections.values())
+        if alive_before_stop and len(conns) >= 2 and r.random() < 0.7:
+            self.kick.append(conns[-1])
+            self.kick_in_disconnect = conns[:r.randint(1, len(conns) - 1)]
+            self.c.inc("last_tick_kick_chains")
+            if r.random() < 0.4:
+                self.shutdown_in_update = True
+                w.step()
+                alive_before_stop = self.handler_shutdown_done and not w.thread_errors
         w.stop()
         self.check_log(alive_before_stop, sender_of)
         return shutdown_at
@@ -581,14 +635,18 @@ def finish(tier, seed, results):
                          "server_disconnect_in_update", "token_draws_repeating_a_live_token", "handler_raised_in_connect",
                          "handler_raised_in_message", "handler_raised_in_update", "handler_raised_in_disconnect", "connected_at_shutdown",
                          "flow_after_exception_checked", "messages_attributed_to_their_client", "act_hostile_datagram", "realnet_runs",
-                         "realnet_sends", "silence_timeouts_checked", "junk_from_silent_addresses"], inconclusive)
+                         "realnet_sends", "silence_timeouts_checked", "junk_from_silent_addresses", "rogue_sealed_datagrams", "last_tick_kick_chains",
+                         "server_disconnect_in_disconnect", "shutdown_called_from_handler"], inconclusive)
     cov = {
         "evaluations": m["evaluations"],
         "distinct_nontrivial": m["distinct_nontrivial"],
         "rule": "one evaluation = one connect/message/disconnect handler event judged against the per-client lifecycle automaton; worlds of up "
                 "to 4/12/40 client addresses with seeded actions per tick (connect, send, client disconnect, go silent, reconnect from the "
                 "same address while connected, server-side disconnect inside connect/message/update, hostile datagrams), seeded handler "
-                "exceptions in every event type, token draws that repeat live tokens, shutdown at a seeded tick. distinct = distinct worlds",
+                "exceptions in every event type, token draws that repeat live tokens, shutdown at a seeded tick; rogue peers that hold a session "
+                "key but never answered the challenge and seal APP / CHALLENGE_RESP-typed multi-message datagrams; on the last tick the handler "
+                "closes clients from inside update() and from inside the following disconnect event while the server is shut down by its owner "
+                "or by the handler itself. distinct = distinct worlds",
         "samples": m["samples"],
         "counters": m["counters"],
     }
